@@ -351,6 +351,10 @@ func GenModel(t *rapid.T, opts ModelOpts) (*t1ref.Font, map[string]bool) {
 			{Present: true, Text: ".05", Val: .05},
 			{Present: true, Text: "0.0396251", Val: 0.0396251},
 			{Present: true, Text: "0.03", Val: 0.03},
+			// explicit values a writer might mistake for "unset"
+			{Present: true, Text: "0", Val: 0},
+			{Present: true, Text: "0.0", Val: 0},
+			{Present: true, Text: "1", Val: 1},
 		}).Draw(t, "bsv")
 	}
 	if rapid.IntRange(0, 2).Draw(t, "bsh") == 0 {
